@@ -24,7 +24,7 @@ MANIFEST = {
     'note': 'EST_IDX_NA = 0 doubles as "no link" and as the index of the first fake node; aggregate pushes of the start nodes are therefore not paired.',
 }
 EXPLANATION = 'Reciprocal link-store pairing and seed / duration / propagation terms of the estimated-time network construction.'
-RULES = ['C15-1.reciprocal', 'C15-2.seed', 'C15-3.duration', 'C15-4.propagation', 'C15-5.origins']
+RULES = ['C15-1.reciprocal', 'C15-2.seed', 'C15-3.duration', 'C15-4.propagation', 'C15-5.origins', 'C15-6.events']
 ASSUMPTIONS = []
 
 
@@ -94,6 +94,7 @@ def link_events(an, root):
 
 def run(ctx):
     reciprocal(ctx)
+    events(ctx)
     seeds(ctx)
     duration(ctx)
     propagation(ctx)
@@ -289,3 +290,65 @@ def propagation(ctx):
         ia, ib = reads(val[1], 'time_sched'), reads(val[2], 'time_to_next')
         ok_p = ok_p or (ia is not None and ia == ib and strip(path[1][1]) != ia)
     ctx.check(ok_p, R, 'update_times_forward|primary', 'a primary successor is scheduled at its predecessor\'s time + duration', 'stores: %s' % [show(v, an.names)[:160] for _, _, v, _ in prim][:2], w)
+
+
+def events(ctx):
+    """C15-6.events: the event a simulated movement contributes when the front (or the tail) crosses a link boundary between two
+    recorded states: constant acceleration a = Δv/Δt over the step, speed² = v_i² − a·2Δx at the boundary, time = t_i − 2Δx /
+    (v_i + speed), position = the boundary; a Clear event names the link the tail leaves, an Arrive event the link the front
+    enters (the point just passed)"""
+    from sa.dsl import T
+    from .common import prove
+    R = 'C15-6.events'
+    b = fn(ctx, 'update_est_times_add')
+    if b is None:
+        ctx.unproved(R, 'update_est_times_add', 'anchor not found'); return
+    eng = engine(ctx)
+    eng.all_paths.add(b.fid)
+    an = eng.analysis(b)
+    if an.exit_state is None or len(b.params) != 4:
+        ctx.unproved(R, 'update_est_times_add', 'not analysable', ctx.where(b)); return
+    ps = [c for c in an.calls if re.sub(r'::<.*?>', '', c.callee).endswith('::push') and c.argvals and c.argvals[0] == ('ref', (('obj', b.params[0][0]),), 'mut')]
+    if len(ps) != 1 or ps[0].argvals[1][0] != 'agg':
+        ctx.unproved(R, 'update_est_times_add', 'expected exactly one event push, found %d' % len(ps), ctx.where(b)); return
+    c = ps[0]
+    w = ctx.where(b, c.span)
+    f = dict(c.argvals[1][2])
+    x = f.get('dist_to_next')
+    mv = ('obj', b.params[1][0]); lp = ('obj', b.params[2][0])
+    # the two movement states: i and i − 1
+    cur = None
+    for y in walk(f.get('speed', ('unit',))):
+        if y[0] == 'pre' and y[1][0] == mv and y[1][-1] == ('f', 'speed') and y[1][1][0] == 'idx' and y[1][1][1][0] == 'iterpos':
+            cur = y[1][1][1]
+    if cur is None or x is None:
+        ctx.unproved(R, 'update_est_times_add', 'event speed does not read movement[i]', w); return
+    m = lambda i, fld: T(('pre', (mv, ('idx', i), ('f', fld))))
+    prv = mk('sub', cur, ONE)
+    dx2 = (m(cur, 'offset') - T(x)) * 2
+    acc = (m(cur, 'speed') - m(prv, 'speed')) / (m(cur, 'time') - m(prv, 'time'))
+    sp = T(f['speed'])
+    prove(ctx, R, 'event speed', an, 'eq', sp * sp, m(cur, 'speed') * m(cur, 'speed') - acc * dx2, assume=[], where=w,
+          note='speed² at the boundary = v_i² − (Δv/Δt)·2Δx (constant acceleration over the recorded step)')
+    prove(ctx, R, 'event time', an, 'eq', T(f['time_to_next']), m(cur, 'time') - dx2 / (m(cur, 'speed') + sp), assume=[], where=w,
+          note='time at the boundary = t_i − 2Δx/(v_i + speed)')
+    ok = x[0] == 'loopvar' and x[2][0][0] == 'local'
+    ctx.check(ok, R, 'event position', 'the event lies at the next boundary offset (the running minimum of front boundary and tail boundary + length)', 'dist_to_next = %s' % show(x, an.names)[:100], w)
+    le = f.get('link_event')
+    ok = le is not None and le[0] == 'gamma' and le[2][0] == 'agg' and le[3][0] == 'agg'
+    if ok:
+        length = ('pre', (('val', b.params[3][0]),))
+        cnd = le[1]
+        clear, arrive = dict(le[2][2]), dict(le[3][2])
+        ok = 'Clear' in show(clear['est_type']) and 'Arrive' in show(arrive['est_type']) and cnd[0] == 'lt' and any(y == length for y in walk(cnd[1]))
+
+        def pt_idx(t):
+            return t[1][1][1] if t[0] == 'pre' and t[1][0] == lp and t[1][1][0] == 'idx' and t[1][-1] == ('f', 'link_idx') else None
+        ib, if_ = pt_idx(clear['link_idx']), pt_idx(arrive['link_idx'])
+        # the tail boundary index appears on the left of the test (offset + length), the front boundary on the right
+        lb = [y[1][1][1] for y in walk(cnd[1]) if y[0] == 'pre' and y[1][0] == lp and y[1][-1] == ('f', 'offset')]
+        lf = [y[1][1][1] for y in walk(cnd[2]) if y[0] == 'pre' and y[1][0] == lp and y[1][-1] == ('f', 'offset')]
+        from .speedprofile import simp_idx
+        ok = ok and ib is not None and if_ is not None and len(lb) == 1 and len(lf) == 1 and simp_idx(ib) == lb[0] and simp_idx(if_) == lf[0]
+    ctx.check(ok, R, 'event link', 'tail boundary first -> Clear event of the link the tail leaves; otherwise Arrive event of the link whose start the front passes',
+              'link_event = %s' % (show(le, an.names)[:300] if le is not None else None), w)
